@@ -5,6 +5,8 @@ package main
 
 import (
 	"bytes"
+	"encoding/json"
+	"io"
 	"fmt"
 	"reflect"
 	"unsafe"
@@ -119,6 +121,7 @@ var fixedNow = time.Date(2026, 1, 1, 0, 0, 0, 0, time.UTC)
 func registerEnvIntrinsics() {
 	registerGoldmark()
 	registerHTML()
+	registerJSON()
 	intrinsics["time.Now"] = func(in *Interp, fr *frame, fn *ssa.Function, a []Value) (Value, bool) {
 		return in.callNative(fr, func() time.Time { return fixedNow }, fn.Signature, a)
 	}
@@ -203,5 +206,121 @@ func registerHTML() {
 		mc := &marshalCtx{in: in, memo: map[unsafe.Pointer]Ptr{}}
 		res := fn.Signature.Results()
 		return Tuple{mc.fromNative(reflect.ValueOf(nodes), res.At(0).Type()), Iface{}}, true
+	}
+}
+
+// ---- encoding/json (native decoder pulling bytes from the interpreted reader)
+
+type jsonDec struct {
+	rd  Iface
+	dec *json.Decoder
+}
+
+type interpReader struct {
+	in  *Interp
+	fr  *frame
+	rd  Iface
+	err *interpErr
+}
+
+type interpErr struct{ v Iface }
+
+func (e *interpErr) Error() string { return "error of the interpreted reader" }
+
+func (r *interpReader) Read(p []byte) (int, error) {
+	in := r.in
+	buf := make([]Value, len(p))
+	for i := range buf {
+		buf[i] = SInt{W: 8}
+	}
+	res, ok := in.callMethod(r.fr, r.rd, "Read", Slice{B: buf, L: len(buf)})
+	if !ok {
+		in.unsupported("reader without Read method")
+	}
+	tu := res.(Tuple)
+	n := int(tu[0].(SInt).Signed())
+	for i := 0; i < n; i++ {
+		b := buf[i].(SInt)
+		if b.T != nil {
+			in.unsupported("JSON body with symbolic bytes (encoding/json runs natively on concrete bodies)")
+		}
+		p[i] = byte(b.V)
+	}
+	e := in.resolveIface(r.fr, tu[1])
+	if e.T == nil {
+		return n, nil
+	}
+	if in.isGlobalValue("io", "EOF", e) {
+		return n, io.EOF
+	}
+	r.err = &interpErr{e}
+	return n, r.err
+}
+
+func (in *Interp) isGlobalValue(pkg, name string, v Iface) bool {
+	p := in.P.prog.ImportedPackage(pkg)
+	if p == nil {
+		return false
+	}
+	g := p.Var(name)
+	if g == nil {
+		return false
+	}
+	cur, ok := (*in.global(g)).(Iface)
+	if !ok || cur.T == nil || v.T == nil {
+		return false
+	}
+	a, ok1 := cur.V.(Ptr)
+	b, ok2 := v.V.(Ptr)
+	return ok1 && ok2 && a == b
+}
+
+func (in *Interp) globalIface(pkg, name string) Value {
+	p := in.P.prog.ImportedPackage(pkg)
+	return *in.global(p.Var(name))
+}
+
+func registerJSON() {
+	intrinsics["encoding/json.NewDecoder"] = func(in *Interp, fr *frame, fn *ssa.Function, a []Value) (Value, bool) {
+		return Native{&jsonDec{rd: in.resolveIface(fr, a[0])}}, true
+	}
+	intrinsics["(*encoding/json.Decoder).Decode"] = func(in *Interp, fr *frame, fn *ssa.Function, a []Value) (Value, bool) {
+		jd := a[0].(Native).X.(*jsonDec)
+		ir := &interpReader{in: in, fr: fr, rd: jd.rd}
+		if jd.dec == nil {
+			jd.dec = json.NewDecoder(ir)
+		}
+		target := in.resolveIface(fr, a[1])
+		ptr, ok := target.V.(Ptr)
+		pt, isPtr := target.T.Underlying().(*types.Pointer)
+		if !ok || !isPtr || ptr == nil {
+			in.unsupported("json Decode into a non-pointer")
+		}
+		rt := reflectTypeOf(pt.Elem())
+		if rt == nil {
+			if n, isNamed := pt.Elem().(*types.Named); isNamed {
+				rt = reflectTypeOf(n.Underlying())
+			}
+		}
+		if rt == nil {
+			in.unsupported("json Decode into " + pt.Elem().String())
+		}
+		nv := reflect.New(rt)
+		err := jd.dec.Decode(nv.Interface())
+		if err != nil {
+			switch {
+			case ir.err != nil && err == error(ir.err):
+				return ir.err.v, true
+			case err == io.EOF:
+				return in.globalIface("io", "EOF"), true
+			case err == io.ErrUnexpectedEOF:
+				return in.globalIface("io", "ErrUnexpectedEOF"), true
+			}
+			mc := &marshalCtx{in: in, memo: map[unsafe.Pointer]Ptr{}}
+			return mc.fromNative(reflect.ValueOf(&err).Elem(), fn.Signature.Results().At(0).Type()), true
+		}
+		mc := &marshalCtx{in: in, memo: map[unsafe.Pointer]Ptr{}}
+		*ptr = mc.fromNative(nv.Elem(), pt.Elem())
+		return Iface{}, true
 	}
 }
